@@ -1,0 +1,45 @@
+//go:build verif
+
+package light
+
+import (
+	"time"
+
+	cmtlight "github.com/cometbft/cometbft/light"
+	cmtlightprovider "github.com/cometbft/cometbft/light/provider"
+	cmtlightstore "github.com/cometbft/cometbft/light/store"
+)
+
+// NewVerifClient creates a light client over an already trusted store, for
+// the verification harness (/verif, property C19). The light blocks in the
+// store play the role of light-client verified headers; heights that are not
+// in the store are requested from the given primary provider and verified by
+// the regular CometBFT light client code. Only compiled with the `verif`
+// build tag.
+func NewVerifClient(
+	chainID string,
+	trustingPeriod time.Duration,
+	primary cmtlightprovider.Provider,
+	witnesses []cmtlightprovider.Provider,
+	trustedStore cmtlightstore.Store,
+) (*Client, error) {
+	lc, err := cmtlight.NewClientFromTrustedStore(chainID, trustingPeriod, primary, witnesses, trustedStore)
+	if err != nil {
+		return nil, err
+	}
+
+	lazy := &lazyClient{
+		chainID:      chainID,
+		primary:      primary,
+		witnesses:    witnesses,
+		trustedStore: trustedStore,
+	}
+	_ = lazy.initOnce.Do(func() error {
+		lazy.lightClient = lc
+		return nil
+	})
+
+	return &Client{
+		lightClient: lazy,
+	}, nil
+}
